@@ -21,11 +21,14 @@ pub struct FaultPlan {
     pub paused: std::sync::atomic::AtomicBool,
     /// when > 0 every optimize call sleeps this many microseconds (widens the window of an in-flight merge)
     pub slow_us: AtomicU64,
+    /// when set, the metric post-processes every distance list it is handed as a LIST: only the results with the smallest
+    /// feature distance of the list survive (all of them when no result of the list has a feature distance)
+    pub post_min: std::sync::atomic::AtomicBool,
     pub log: std::sync::Mutex<Vec<&'static str>>,
 }
 impl FaultPlan {
     pub fn new() -> Arc<FaultPlan> {
-        Arc::new(FaultPlan { calls: AtomicI64::new(0), fail_at: AtomicI64::new(-1), paused: Default::default(), slow_us: AtomicU64::new(0), log: Default::default() })
+        Arc::new(FaultPlan { calls: AtomicI64::new(0), fail_at: AtomicI64::new(-1), paused: Default::default(), slow_us: AtomicU64::new(0), post_min: Default::default(), log: Default::default() })
     }
     pub fn arm(&self, k: i64) {
         self.calls.store(0, Ordering::SeqCst);
@@ -229,6 +232,16 @@ impl ObservationMetric<WAttrs, WObs> for WMetric {
             return Err(anyhow!("injected: metric.optimize"));
         }
         Ok(())
+    }
+    fn postprocess_distances(&self, unfiltered: Vec<similari::track::ObservationMetricOk<WObs>>) -> Vec<similari::track::ObservationMetricOk<WObs>> {
+        if !self.plan.post_min.load(Ordering::SeqCst) {
+            return unfiltered;
+        }
+        let best = unfiltered.iter().filter_map(|r| r.feature_distance).fold(None, |m: Option<f32>, d| Some(m.map_or(d, |x| x.min(d))));
+        match best {
+            None => unfiltered,
+            Some(b) => unfiltered.into_iter().filter(|r| r.feature_distance == Some(b)).collect(),
+        }
     }
 }
 
